@@ -660,9 +660,26 @@ fn stack_case(rng: &mut Rng, idx: usize, max_layers: usize) -> StackCase {
             prefix_len = d.split('/').count();
             let tail = *rng.pick(&["**", "**/*", "*", "*/*", "**/*.rs", "*/**"]);
             gexpr = Some(format!("{}/{}", wax::escape(&d), tail));
+            spec.plant_path(&format!("{}/zz/zz/zz/leaf", d), false);
+            spec.plant_path(&format!("{}/zz/side", d), false);
         }
         let mut chosen = None;
+        if prefix_len > 0 && rng.chance(1, 2) {
+            // Maximum just past the prefix (the band in which a directory still has children
+            // within the bound), with something deep beneath the prefix directory.
+            let max = prefix_len + rng.range(1, 3);
+            let min = rng.below(prefix_len + 2);
+            chosen = Some(if min == 0 || rng.chance(1, 2) {
+                (DepthBehavior::Max(wax::walk::DepthMax(max)), (0, Some(max)))
+            }
+            else {
+                (wax::walk::DepthMinMax::from_depths_or_max(min.min(max), max), (min.min(max), Some(max)))
+            });
+        }
         for _ in 0..8 {
+            if chosen.is_some() {
+                break;
+            }
             let (d, w, _) = walkgen::depth_behaviour(rng, 5);
             // (Mostly windows that reach the prefix; one in six may end before it.)
             if w.1.map_or(true, |m| m >= prefix_len) || rng.chance(1, 6) {
